@@ -227,6 +227,13 @@ def run(ch, params, decoded=False):
     prog = progmod.generate(ch, params)
     mode = prog["mode"]
     n_renders = 1 + ch.small(2, "n_renders", 1, 2)
+    # a second page over the SAME component classes (other composition, other first-appearance order): whatever the
+    # library remembers per class set from one document must not leak into the next
+    prog_b = None
+    if not prog["py_entry"] and ch.chance(1, 2, "second_page"):
+        prog_b = progmod.generate(ch, dict(params, reuse_comps=prog["comps"], py_entry=0))
+        prog_b["mode"] = mode
+        n_renders = max(n_renders, 2)
     plan = []
     for k in range(n_renders):
         if prog["py_entry"]:
@@ -237,19 +244,29 @@ def run(ch, params, decoded=False):
         fault = [None, "clear", "evict", "expire"][ch.weighted([4, 2, 2, 2], "cache_fault")] if k > 0 else None
         evict_mask = ch.draw(8, "evict_mask") if fault == "evict" else 0
         plan.append({"entry": entry, "type": rtype, "fault_before": fault, "evict_mask": evict_mask,
-                     "gc_between": ch.chance(1, 5, "gc_between")})
+                     "gc_between": ch.chance(1, 5, "gc_between"),
+                     "page": (k % 2 if ch.chance(3, 4, "alternate") else 0) if prog_b is not None else 0})
     w = R.start_world(knobs, mode)
     stats = {"mode=" + mode: 1, "cache=" + knobs["cache_variant"]: 1, "page_wrap=%d" % prog["page_wrap"]: 1}
     violations = []
-    exp = ref.run_model(prog)
+    exp_a = ref.run_model(prog)
+    exp = exp_a
     model = exp["model"]
     classes = emit.build_classes(prog)
     class_hash = {n: c._class_hash for n, c in classes.items()}
     budget = params["budget_mult"] * max(1, model.node_renders) + 300_000
     observed = []
     nontrivial = False
+    pages = [(prog, exp_a, expectations(prog, exp_a["model"], exp_a["stream"]) if exp_a["result"][0] == "ok" else None)]
+    if prog_b is not None:
+        exp_b = ref.run_model(prog_b)
+        pages.append((prog_b, exp_b, expectations(prog_b, exp_b["model"], exp_b["stream"]) if exp_b["result"][0] == "ok" else None))
+        budget += params["budget_mult"] * max(1, exp_b["model"].node_renders)
+        if pages[0][2] and pages[1][2]:
+            stats["probe:two_pages_same_classes_other_order"] = 1 if (
+                sorted(pages[0][2]["classes"]) == sorted(pages[1][2]["classes"]) and pages[0][2]["classes"] != pages[1][2]["classes"]) else 0
     if exp["result"][0] == "ok":
-        e = expectations(prog, model, exp["stream"])
+        e = pages[0][2]
         nontrivial = bool(e["js"] or e["css"] or e["media_js"] or e["media_css"])
         stats["probe:classes_with_inline_js>=2"] = 1 if len(e["js"]) >= 2 else 0
         stats["probe:non_ascii_class_rendered"] = 1 if any(not (classes[n].__name__).isascii() for n in e["classes"]) else 0
@@ -263,8 +280,9 @@ def run(ch, params, decoded=False):
                 stats["sim_time_s"] = stats.get("sim_time_s", 0) + 301
             elif lost:
                 stats["probe:cache_entries_actually_lost"] = stats.get("probe:cache_entries_actually_lost", 0) + 1
+        cur_prog, exp, e = pages[step["page"]]
         w.begin_op()
-        real = render_via(prog, classes, w, step["entry"], step["type"], step["gc_between"], budget)
+        real = render_via(cur_prog, classes, w, step["entry"], step["type"], step["gc_between"], budget)
         observed.append([real[0], real[1][:2500]])
         stats["entry:" + step["entry"]] = stats.get("entry:" + step["entry"], 0) + 1
         stats["type:" + step["type"]] = stats.get("type:" + step["type"], 0) + 1
@@ -280,7 +298,7 @@ def run(ch, params, decoded=False):
         elif real[0] != "ok":
             bad = ("EXCEPTION" if real[0] == "err" else "HANG", f"{real[1]}: {real[2] if len(real) > 2 else ''}")
         else:
-            wrap = prog["page_wrap"]
+            wrap = cur_prog["page_wrap"]
             if step["entry"] == "Component.render":
                 wrap = 0
             if step["type"] == "document":
@@ -296,6 +314,7 @@ def run(ch, params, decoded=False):
            "nontrivial": nontrivial, "stats": stats, "digest": w.digest()}
     if decoded or violations:
         out["decoded"] = {"knobs": knobs, "program": R.decoded_program(prog),
+                          "second_page_over_same_classes": emit.page_source(prog_b) if prog_b is not None else None,
                           "assets": {c["name"]: {k_: c.get(k_) for k_ in ("cls", "js", "css", "media_js", "media_css", "base", "media_extend")}
                                      for c in prog["comps"]},
                           "plan": plan, "expected": list(exp["result"][:3]), "observed": observed}
